@@ -34,6 +34,12 @@ def _ref_func(model: Model, src: str, like: FuncInfo) -> FuncInfo:
     return ref
 
 
+def _loops(f: FuncInfo) -> FuncInfo:
+    """f with its loop idioms rewritten (sa.loopnorm): appending loops are comprehensions, search loops quantifiers, ..."""
+    from .loopnorm import normalise_loops
+    return FuncInfo(f.name, f.qname, normalise_loops(f.node), f.module, f.cls)
+
+
 def _cond_ast(c) -> ast.AST:
     parts = [e if pol else ast.UnaryOp(op=ast.Not(), operand=e) for e, pol in c]
     if not parts:
@@ -90,9 +96,9 @@ def table(fl: Flow, keep: Optional[Callable[[str, str], bool]] = None):
 def signature(model: Model, f: FuncInfo, ref_src: Optional[str] = None, want_inline=None) -> tuple:
     """(returns, effects in program order) of f -- or of the reference source `ref_src` read in f's place -- as canonical text."""
     if ref_src is not None:
-        fl = flow_of(_ref_func(model, ref_src, f), model)
+        fl = flow_of(_loops(_ref_func(model, ref_src, f)), model)
     else:
-        fl = flow_of(inline_view(model, f, want_inline) if want_inline is not None else f, model)
+        fl = flow_of(_loops(inline_view(model, f, want_inline) if want_inline is not None else f), model)
     rets, effs = table(fl)
     return tuple(rets), tuple((k, s_, c) for k, s_, c, _ in effs)
 
@@ -268,8 +274,8 @@ def compare(rule: Rule, model: Model, f: FuncInfo, ref_src: str, key: str, *,
             what: str = "") -> bool:
     """One rule instance per aspect: `<key>|returns`, `<key>|effects`, `<key>|order`."""
     g = inline_view(model, f, want_inline) if want_inline is not None else f
-    fl = flow_of(g, model)
-    rf = flow_of(_ref_func(model, ref_src, f), model)
+    fl = flow_of(_loops(g), model)
+    rf = flow_of(_loops(_ref_func(model, ref_src, f)), model)
     got_r, got_e = table(fl, keep)
     ref_r, ref_e = table(rf, keep)
     ok_all = True
